@@ -158,4 +158,16 @@ def c06(prop, tier, replay):
         extra_cov={"cache_orders": n, "cache_machine_states": g["distinct"]})
 
 
-REGISTRY = {"C11": c11, "C05": c05, "C06": c06}
+def c07(prop, tier, replay):
+    return gen_and_replay(
+        prop, tier, "Gen_LL", "c07", spaces(tier, LL_EXTRA), ["Emit"],
+        rule="same grammar universe as C05 (those that are strong LL(K), K<=3); per non-terminal TLC's lookahead sets "
+             "LaSet(G,k,p) at the minimal k are the expected language of the automaton; the harness walks the unminimised "
+             "LookaheadDFA and the compiled (minimised) automaton of the export model on EVERY string over the terminals "
+             "(optionally closed by $) up to length k+1: the state reached predicts p iff the string is in LaSet(p), "
+             "identically before and after minimisation; compiled transitions strictly sorted by (from, terminal), states "
+             "dense, one production per state, k = minimal k; non-trivial: grammar accepted (tag k>=2: some automaton needs k>=2)",
+        replay=replay)
+
+
+REGISTRY = {"C11": c11, "C05": c05, "C06": c06, "C07": c07}
